@@ -4,8 +4,7 @@ import DspVerif.Model.Lru
 # The forward transform family (`lib/fft/*.{h,cpp}`, `lib/fft/czt.cpp`)
 
 Every algorithm is written as an *index map* `Nat → Cx α` (the value the code leaves at an index),
-generic in the scalar.  `mat n f` materialises the first `n` values of a map into an `Array`
-(one evaluation per cell) and reads them back; it is the identity below `n` (`mat_apply` in
+generic in the scalar.  `mk n f` is the array whose cell `i < n` holds `f i`, `rd a i` reads a cell (`rd_mk` in
 `Lib/C01Fft.lean`), so the theorems of `Props/C01.lean` are about exactly the functions the driver
 runs at `Float`; the in-place loops of the C++ code vs. these index maps is what the correspondence run covers.
 
@@ -39,18 +38,29 @@ structure Lits (α : Type) where
 
 def zero : Cx α := ⟨Fn.ofNat 0, Fn.ofNat 0⟩
 
-/-- materialise `f 0 … f (n-1)` (each evaluated once) and read back; `zero` outside -/
-def mat (n : Nat) (f : Nat → Cx α) : Nat → Cx α :=
-  let a := Array.ofFn (n := n) (fun i => f i.val)
-  fun i => a.getD i zero
+/-- `arr_cmplx` -/
+abbrev Vec (α : Type) := Array (Cx α)
 
-/-- materialise an `R × C` matrix row by row (`f r` evaluated once per row) -/
-def mat2 (R C : Nat) (f : Nat → Nat → Cx α) : Nat → Nat → Cx α :=
-  let a := Array.ofFn (n := R) (fun r => let g := f r.val; Array.ofFn (n := C) (fun c => g c.val))
-  fun r c => (a.getD r #[]).getD c zero
+/-- read cell `i` (`zero` outside the array: the code never reads there) -/
+def rd (a : Vec α) (i : Nat) : Cx α := a.getD i zero
+
+/-- the array whose cell `i < n` holds `f i` (each cell evaluated once) -/
+def mk (n : Nat) (f : Nat → Cx α) : Vec α := Array.ofFn (n := n) (fun i => f i.val)
+
+/-- read cell `(r, c)` of an array of rows -/
+def rd2 (a : Array (Vec α)) (r c : Nat) : Cx α := rd (a.getD r #[]) c
+
+/-- an array of `R` row vectors -/
+def mkRows (R : Nat) (g : Nat → Vec α) : Array (Vec α) := Array.ofFn (n := R) (fun r => g r.val)
+
+/-- `arr_real` cell -/
+def rdR (a : Array α) (i : Nat) : α := a.getD i (Fn.ofNat 0)
 
 /-- a real value as `cmplx_t` (`complex(x)`, `y[0] = x[0]`) -/
 def ofReal (v : α) : Cx α := ⟨v, Fn.ofNat 0⟩
+
+/-- `complex(arr_real)` -/
+def complexify (x : Array α) : Vec α := mk x.size (fun i => ofReal (rdR x i))
 
 /-- `expj(t)` -/
 def expj (t : α) : Cx α := ⟨Fn.cos t, Fn.sin t⟩
@@ -89,55 +99,52 @@ def coeffs (n k : Nat) : Cx α :=
   else if k < n3 then ⟨-(cosTab n (k - n2)), cosTab n (n3 - k)⟩
   else ⟨cosTab n (n - k), cosTab n (k - n3)⟩
 
-/-- `_bitreverse` -/
-def bitreverse (n : Nat) (br : Array Nat) (x : Nat → Cx α) : Nat → Cx α :=
-  let n2 := n / 2
-  fun idx => if idx < n2 then x (br.getD idx 0) else x (br.getD (idx - n2) 0 + 1)
+/-- `_bitreverse`: value left at `idx` -/
+def bitreverse (n : Nat) (br : Array Nat) (x : Vec α) (idx : Nat) : Cx α :=
+  if idx < n / 2 then rd x (br.getD idx 0) else rd x (br.getD (idx - n / 2) 0 + 1)
 
 /-- value left at `idx` by one cascade with `h` butterflies per cluster and table step `m` -/
-def stage (h m : Nat) (cf y : Nat → Cx α) : Nat → Cx α :=
-  fun idx =>
-    let pos := idx % (2 * h)
-    if pos < h then y idx + cf (pos * m) * y (idx + h)
-    else y (idx - h) - cf ((pos - h) * m) * y idx
+def stage (h m : Nat) (cf y : Vec α) (idx : Nat) : Cx α :=
+  let pos := idx % (2 * h)
+  if pos < h then rd y idx + rd cf (pos * m) * rd y (idx + h)
+  else rd y (idx - h) - rd cf ((pos - h) * m) * rd y idx
 
 /-- the first `s` cascades -/
-def stages (n : Nat) (cf : Nat → Cx α) : Nat → (Nat → Cx α) → (Nat → Cx α)
+def stages (n : Nat) (cf : Vec α) : Nat → Vec α → Vec α
   | 0, y => y
-  | s + 1, y => mat n (stage (2 ^ s) (n / 2 ^ (s + 1)) cf (stages n cf s y))
+  | s + 1, y => mk n (stage (2 ^ s) (n / 2 ^ (s + 1)) cf (stages n cf s y))
 
-/-- `Pow2FftPlan::_fft` (`n = 2^l`, `4 ∣ n`) -/
-def pow2fft (n : Nat) (x : Nat → Cx α) : Nat → Cx α :=
-  let cf := mat n (coeffs n)
-  stages n cf (nextpow2 n) (mat n (bitreverse n (bitrevTable n) x))
+/-- `Pow2FftPlan::solve` (`n = 2^l`, `4 ∣ n`) -/
+def pow2fft (n : Nat) (x : Vec α) : Vec α :=
+  stages n (mk n (coeffs n)) (nextpow2 n) (mk n (bitreverse n (bitrevTable n) x))
 
 /-- `SmallFftPow2C::solve` -/
-def smallC (lit : Lits α) (n : Nat) (x : Nat → Cx α) : Nat → Cx α :=
-  if n = 1 then fun k => if k = 0 then x 0 else zero
-  else if n = 2 then mat 2 (Gen.fft2 x)
-  else if n = 4 then mat 4 (Gen.fft4 x)
-  else mat 8 (Gen.fft8 lit.c8 x)
+def smallC (lit : Lits α) (n : Nat) (x : Vec α) : Vec α :=
+  if n = 1 then mk 1 (fun _ => rd x 0)
+  else if n = 2 then mk 2 (Gen.fft2 (rd x))
+  else if n = 4 then mk 4 (Gen.fft4 (rd x))
+  else mk 8 (Gen.fft8 lit.c8 (rd x))
 
 /-- `SmallFftPow2R::solve` -/
-def smallR (lit : Lits α) (n : Nat) (x : Nat → α) : Nat → Cx α :=
-  if n = 1 then fun k => if k = 0 then ofReal (x 0) else zero
-  else if n = 2 then mat 2 (Gen.rfft2 x)
-  else if n = 4 then mat 4 (Gen.rfft4 x)
-  else mat 8 (Gen.rfft8 lit.c8r x)
+def smallR (lit : Lits α) (n : Nat) (x : Array α) : Vec α :=
+  if n = 1 then mk 1 (fun _ => ofReal (rdR x 0))
+  else if n = 2 then mk 2 (Gen.rfft2 (rdR x))
+  else if n = 4 then mk 4 (Gen.rfft4 (rdR x))
+  else mk 8 (Gen.rfft8 lit.c8r (rdR x))
 
 def isSmall (n : Nat) : Bool := n == 1 || n == 2 || n == 4 || n == 8
 
 /-- `create_fft_plan(n)` for a power of two -/
-def fftPow2 (lit : Lits α) (n : Nat) (x : Nat → Cx α) : Nat → Cx α :=
+def fftPow2 (lit : Lits α) (n : Nat) (x : Vec α) : Vec α :=
   if isSmall n then smallC lit n x else pow2fft n x
 
 /-! ## chirp-z (Bluestein) -/
 
 /-- `IfftPlan::solve` on top of a forward solver of size `n` -/
-def ifftWith (fwd : (Nat → Cx α) → Nat → Cx α) (n : Nat) (x : Nat → Cx α) : Nat → Cx α :=
+def ifftWith (fwd : Vec α → Vec α) (n : Nat) (x : Vec α) : Vec α :=
   let m : α := Fn.ofNat 1 / Fn.ofNat n
-  let y := fwd (mat n (fun i => Cx.conj (Cx.mulr (x i) m)))
-  fun i => Cx.conj (y i)
+  let y := fwd (mk n (fun i => Cx.conj (Cx.mulr (rd x i) m)))
+  mk n (fun i => Cx.conj (rd y i))
 
 /-- `angle(v)` -/
 def angle [Atan2 α] (v : Cx α) : α := Atan2.atan2 v.im v.re
@@ -152,43 +159,41 @@ def powNeg [Atan2 α] (a : Cx α) (j : Nat) : Cx α :=
 
 /-- `CztPlanImpl(n, m, w, a)` followed by `solve(x)`; `fwd` = `FftPlan(n2)`, `skipA` = outcome of the
     test `!(abs(a - 1) > eps(a.re))` (evaluated on the doubles by the caller) -/
-def czt [Atan2 α] (fwd : Nat → (Nat → Cx α) → Nat → Cx α) (n m : Nat) (w a : Cx α) (skipA : Bool)
-    (x : Nat → Cx α) : Nat → Cx α :=
+def czt [Atan2 α] (fwd : Nat → Vec α → Vec α) (n m : Nat) (w a : Cx α) (skipA : Bool) (x : Vec α) : Vec α :=
   let wa : α := angle w
-  let len := n - 1 + max m n
-  let chirp := mat len (fun i =>
+  let chirp := mk (n - 1 + max m n) (fun i =>
     let v : α := Fn.ofInt ((i : Int) + 1 - (n : Int))
     expj (wa * (v * v / Fn.ofNat 2)))
   let n2 := 2 ^ nextpow2 (m + n - 1)
-  let cp := mat n (fun j => if skipA then chirp (n - 1 + j) else chirp (n - 1 + j) * powNeg a j)
-  let ich := fwd n2 (mat n2 (fun i => if i < m + n - 1 then (⟨Fn.ofNat 1, Fn.ofNat 0⟩ : Cx α) / chirp i else zero))
-  let xp := fwd n2 (mat n2 (fun i => if i < n then x i * cp i else zero))
-  let y := ifftWith (fwd n2) n2 (mat n2 (fun i => xp i * ich i))
-  mat m (fun k => y (n - 1 + k) * chirp (n - 1 + k))
+  let cp := mk n (fun j => if skipA then rd chirp (n - 1 + j) else rd chirp (n - 1 + j) * powNeg a j)
+  let ich := fwd n2 (mk n2 (fun i => if i < m + n - 1 then (⟨Fn.ofNat 1, Fn.ofNat 0⟩ : Cx α) / rd chirp i else zero))
+  let xp := fwd n2 (mk n2 (fun i => if i < n then rd x i * rd cp i else zero))
+  let y := ifftWith (fwd n2) n2 (mk n2 (fun i => rd xp i * rd ich i))
+  mk m (fun k => rd y (n - 1 + k) * rd chirp (n - 1 + k))
 
 /-! ## prime lengths -/
 
 /-- the inner loop of `_dft_slow` for bin `k ≥ 1` after `i` iterations: accumulator and running index `iw` -/
-def dftSlowLoop (n k : Nat) (x tw : Nat → Cx α) : Nat → Cx α × Nat
+def dftSlowLoop (n k : Nat) (x tw : Vec α) : Nat → Cx α × Nat
   | 0 => (zero, 0)
   | i + 1 =>
     let st := dftSlowLoop n k x tw i
     let iw := st.2 + k
-    (st.1 + x i * tw st.2, if iw < n then iw else iw - n)
+    (st.1 + rd x i * rd tw st.2, if iw < n then iw else iw - n)
 
 /-- `y[0] += x[i]` -/
-def sumLoop (x : Nat → Cx α) : Nat → Cx α
+def sumLoop (x : Vec α) : Nat → Cx α
   | 0 => zero
-  | i + 1 => sumLoop x i + x i
+  | i + 1 => sumLoop x i + rd x i
 
 /-- `_dft_slow` -/
-def dftSlow (n : Nat) (tw x : Nat → Cx α) : Nat → Cx α :=
-  fun k => if k = 0 then sumLoop x n else (dftSlowLoop n k x tw n).1
+def dftSlow (n : Nat) (tw x : Vec α) : Vec α :=
+  mk n (fun k => if k = 0 then sumLoop x n else (dftSlowLoop n k x tw n).1)
 
 /-- `PrimesFftC::solve` (`n` prime, `n ≥ 3`) -/
-def fftPrime [Atan2 α] (lit : Lits α) (n : Nat) (x : Nat → Cx α) : Nat → Cx α :=
-  if n = 3 then mat 3 (Gen.dft3 lit.d3 x)
-  else if n ≤ Gen.maxDftSize then mat n (dftSlow n (mat n (twiddle n)) x)
+def fftPrime [Atan2 α] (lit : Lits α) (n : Nat) (x : Vec α) : Vec α :=
+  if n = 3 then mk 3 (Gen.dft3 lit.d3 (rd x))
+  else if n ≤ Gen.maxDftSize then dftSlow n (mk n (twiddle n)) x
   else czt (fftPow2 lit) n n (expj (Fn.ofInt (-2) * Fn.pi / Fn.ofNat n)) ⟨Fn.ofNat 1, Fn.ofNat 0⟩ true x
 
 /-! ## general Cooley–Tukey over a factor tree -/
@@ -215,83 +220,82 @@ def mkPlan : Nat → Nat → Plan
         let P := splitP n fac
         .node P (n / P) (mkPlan fuel P) (mkPlan fuel (n / P))
 
-/-- `_facfft`: transpose, inner transforms of size `P`, twiddles `tw[q·p·decim]` (first row and column skipped),
-    transpose, outer transforms of size `Q`, transpose — as the value left at index `k = s·P + p` -/
-def facfft (leaf : Nat → (Nat → Cx α) → Nat → Cx α) (tw : Nat → Cx α) (headN : Nat) :
-    Plan → (Nat → Cx α) → Nat → Cx α
+/-- twiddle step of `_facfft`: `x[q*plen + p] *= tw[q*p*decim]` for `p, q ≥ 1` -/
+def twMul (tw : Vec α) (decim : Nat) (v : Cx α) (j pp : Nat) : Cx α :=
+  if 1 ≤ pp ∧ 1 ≤ j then v * rd tw (j * pp * decim) else v
+
+/-- `_facfft`: transpose, inner transforms of size `P`, twiddles (first row and column skipped),
+    transpose, outer transforms of size `Q`, transpose — cell `k = s·P + p` of the result is cell `s`
+    of the outer transform number `p` -/
+def facfft (leaf : Nat → Vec α → Vec α) (tw : Vec α) (headN : Nat) : Plan → Vec α → Vec α
   | .leaf n, x => leaf n x
   | .node P Q p q, x =>
     let decim := headN / (P * Q)
-    let inner := mat2 Q P (fun j => facfft leaf tw headN p (fun i => x (i * Q + j)))
-    let outer := mat2 P Q (fun pp => facfft leaf tw headN q (fun j =>
-      if 1 ≤ pp ∧ 1 ≤ j then inner j pp * tw (j * pp * decim) else inner j pp))
-    fun k => outer (k % P) (k / P)
+    let inner : Array (Vec α) := mkRows Q (fun j =>
+      facfft leaf tw headN p (mk P (fun i => rd x (i * Q + j))))
+    let outer : Array (Vec α) := mkRows P (fun pp =>
+      facfft leaf tw headN q (mk Q (fun j => twMul tw decim (rd2 inner j pp) j pp)))
+    mk (P * Q) (fun k => rd2 outer (k % P) (k / P))
 
 /-- the solver a `PlanTree` leaf gets from `create_fft_plan` (leaves are powers of two or primes) -/
-def fftLeaf [Atan2 α] (lit : Lits α) (n : Nat) (x : Nat → Cx α) : Nat → Cx α :=
+def fftLeaf [Atan2 α] (lit : Lits α) (n : Nat) (x : Vec α) : Vec α :=
   if isSmall n then smallC lit n x
   else if isprime n then fftPrime lit n x
-  else mat n (pow2fft n x)
+  else pow2fft n x
 
 /-- `FactorFFTPlan::solve` -/
-def fftFactor [Atan2 α] (lit : Lits α) (n : Nat) (x : Nat → Cx α) : Nat → Cx α :=
-  facfft (fftLeaf lit) (mat n (twiddle n)) n (mkPlan 32 n) x
+def fftFactor [Atan2 α] (lit : Lits α) (n : Nat) (x : Vec α) : Vec α :=
+  facfft (fftLeaf lit) (mk n (twiddle n)) n (mkPlan 32 n) x
 
 /-! ## plan selection (`create_fft_plan`, `create_rfft_plan`) and the free functions -/
 
 /-- `fft(const arr_cmplx&)` / `FftPlan(n)(x)` for `x.size() = n ≥ 1` -/
-def fftC [Atan2 α] (lit : Lits α) (n : Nat) (x : Nat → Cx α) : Nat → Cx α :=
+def fftC [Atan2 α] (lit : Lits α) (n : Nat) (x : Vec α) : Vec α :=
   if isSmall n then smallC lit n x
   else if isprime n then fftPrime lit n x
-  else if ispow2 n then mat n (pow2fft n x)
+  else if ispow2 n then pow2fft n x
   else fftFactor lit n x
 
-/-- `RealFftPlan::solve` (`n` even): `fwd` = complex plan of size `n/2` -/
-def rfftPacked (fwd : (Nat → Cx α) → Nat → Cx α) (n : Nat) (w : Nat → Cx α) (x : Nat → α) : Nat → Cx α :=
+/-- `RealFftPlan::solve` (`n` even): `fwd` = complex plan of size `n/2`, `w` = `expj(-2 pi arange(n/2) / n)` -/
+def rfftPacked (fwd : Vec α → Vec α) (n : Nat) (w : Vec α) (x : Array α) : Vec α :=
   let n2 := n / 2
   let half : α := Fn.ofNat 1 / Fn.ofNat 2
-  let Z := fwd (mat n2 (fun i => Cx.mulr ⟨x (2 * i), x (2 * i + 1)⟩ half))
-  let lower := mat n2 (fun i =>
-    let Zc := Cx.conj (Z (if i = 0 then 0 else n2 - i))
-    let Xe := Z i + Zc
-    let Xo := (Zc - Z i) * w i
+  let Z := fwd (mk n2 (fun i => Cx.mulr ⟨rdR x (2 * i), rdR x (2 * i + 1)⟩ half))
+  let lower := mk n2 (fun i =>
+    let Zc := Cx.conj (rd Z (if i = 0 then 0 else n2 - i))
+    let Xe := rd Z i + Zc
+    let Xo := (Zc - rd Z i) * rd w i
     ⟨Xe.re - Xo.im, Xe.im + Xo.re⟩)
-  fun k =>
-    if k < n2 then lower k
+  mk n (fun k =>
+    if k < n2 then rd lower k
     else if k = n2 then
-      let Xe := Z 0 + Cx.conj (Z 0)
-      let Xo := Cx.conj (Z 0) - Z 0
+      let Xe := rd Z 0 + Cx.conj (rd Z 0)
+      let Xo := Cx.conj (rd Z 0) - rd Z 0
       ofReal (Xe.re + Xo.im)
-    else ⟨(lower (n - k)).re, -(lower (n - k)).im⟩
+    else ⟨(rd lower (n - k)).re, -(rd lower (n - k)).im⟩)
 
 /-- `fft(const arr_real&)` / `rfft` / `FftPlanR(n)(x)` for `x.size() = n ≥ 1` -/
-def fftR [Atan2 α] (lit : Lits α) (n : Nat) (x : Nat → α) : Nat → Cx α :=
+def fftR [Atan2 α] (lit : Lits α) (n : Nat) (x : Array α) : Vec α :=
   if isSmall n then smallR lit n x
-  else if isprime n then fftPrime lit n (fun i => ofReal (x i))
-  else if n % 2 = 0 then mat n (rfftPacked (fftC lit (n / 2)) n (mat (n / 2) (twiddle n)) x)
-  else fftFactor lit n (fun i => ofReal (x i))
+  else if isprime n then fftPrime lit n (complexify x)
+  else if n % 2 = 0 then rfftPacked (fftC lit (n / 2)) n (mk (n / 2) (twiddle n)) x
+  else fftFactor lit n (complexify x)
 
-/-- zero-pad / truncate a length-`len` signal to `n'` samples -/
-def padTrunc (len n' : Nat) (x : Nat → Cx α) : Nat → Cx α :=
-  fun i => if i < len ∧ i < n' then x i else zero
+/-- `zeropad(x, n')` / `x.slice(0, n')` -/
+def padTrunc (n' : Nat) (x : Vec α) : Vec α :=
+  mk n' (fun i => if i < x.size then rd x i else zero)
 
-/-- `fft(const arr_cmplx& x, int n')` with `x.size() = len` -/
-def fftCN [Atan2 α] (lit : Lits α) (len n' : Nat) (x : Nat → Cx α) : Nat → Cx α :=
-  if n' = len then fftC lit len x
-  else fftC lit n' (mat n' (padTrunc len n' x))
+/-- `fft(const arr_cmplx& x, int n')` -/
+def fftCN [Atan2 α] (lit : Lits α) (n' : Nat) (x : Vec α) : Vec α :=
+  if n' = x.size then fftC lit x.size x else fftC lit n' (padTrunc n' x)
+
+/-- the real counterpart of `padTrunc` -/
+def padTruncR (n' : Nat) (x : Array α) : Array α :=
+  Array.ofFn (n := n') (fun i => if i.val < x.size then rdR x i.val else Fn.ofNat 0)
 
 /-- `fft(const arr_real& x, int n')` / `rfft(x, n')` -/
-def fftRN [Atan2 α] (lit : Lits α) (len n' : Nat) (x : Nat → α) : Nat → Cx α :=
-  if n' = len then fftR lit len x
-  else
-    let a := Array.ofFn (n := n') (fun i => if i.val < len then x i.val else Fn.ofNat 0)
-    fftR lit n' (fun i => a.getD i (Fn.ofNat 0))
-
-/-- read an input array as an index map -/
-def ofArray (a : Array (Cx α)) : Nat → Cx α := fun i => a.getD i zero
-
-/-- the first `n` values as an array (API result) -/
-def toArray (n : Nat) (f : Nat → Cx α) : Array (Cx α) := Array.ofFn (n := n) (fun i => f i.val)
+def fftRN [Atan2 α] (lit : Lits α) (n' : Nat) (x : Array α) : Vec α :=
+  if n' = x.size then fftR lit x.size x else fftR lit n' (padTruncR n' x)
 
 end Fft
 end Dsp
